@@ -47,7 +47,7 @@ def fft_case(draw):
         k = 2 if name in TWO_D else draw(st.integers(1, rank))
         perm = draw(st.permutations(range(rank)))[:k]
         axes = [a - rank if draw(st.booleans()) else a for a in perm]
-        omit = draw(st.integers(0, 3)) == 0
+        omit = draw(st.integers(0, 2)) == 0
         if name in TWO_D and omit:
             axes = [-2, -1]
         elif name not in TWO_D and omit:
@@ -71,8 +71,8 @@ def fft_case(draw):
     if name in ("irfft", "irfft2", "irfftn", "hfft") and "n" not in kw and "s" not in kw and shape[axes[-1] % rank] < 2:
         # default output length 2*(m-1) = 0: degenerate (the references disagree among themselves: irfft raises, irfft2 returns length 1)
         shape[axes[-1] % rank] = draw(st.integers(2, 6))
-    if draw(st.integers(0, 2)) == 0:
-        kw["norm"] = draw(st.sampled_from([None, "backward", "ortho", "forward"]))
+    if draw(st.booleans()):
+        kw["norm"] = draw(st.sampled_from([None, "backward", "ortho", "forward", "ortho", "forward"]))
     # dask chunking off the transformed axes
     tr = set(a % rank for a in axes)
     chunks = [shape[i] if i in tr else draw(st.integers(1, shape[i])) for i in range(rank)]
@@ -81,7 +81,9 @@ def fft_case(draw):
             if i not in tr:
                 shape[i] = min(shape[i], 3)
                 chunks[i] = min(chunks[i], shape[i])
-    return {"name": name, "shape": shape, "dtype": dtype, "kw": kw, "axes": axes, "chunks": chunks, "seed": draw(st.integers(0, 2**31 - 1))}
+    return {"name": name, "shape": shape, "dtype": dtype, "kw": kw, "axes": axes, "chunks": chunks, "seed": draw(st.integers(0, 2**31 - 1)),
+            # how many of (n|s, axis|axes, norm) are passed positionally instead of by keyword
+            "npos": draw(st.sampled_from([0, 0, 1, 2, 3, 3]))}
 
 
 def mk_input(case):
@@ -97,6 +99,15 @@ def mk_input(case):
     return x.astype(dt)
 
 
+def positional(name, kw, k):
+    """the same call with the first k optional parameters given positionally (scipy.fft order: n/s, axis/axes, norm): -> (args, kwargs)"""
+    order = ["n", "axis", "norm"] if not (name.endswith("2") or name.endswith("n")) else ["s", "axes", "norm"]
+    default = {"n": None, "axis": -1, "norm": None, "s": None, "axes": (-2, -1) if name.endswith("2") else None}
+    k = min(k, max([i + 1 for i, p in enumerate(order) if p in kw] or [0]))
+    args = [kw.get(p, default[p]) for p in order[:k]]
+    return tuple(args), {p: v for p, v in kw.items() if p not in order[:k]}
+
+
 def run_fft(case, stt):
     import pulsarbat as pb
     import scipy.fft
@@ -106,6 +117,7 @@ def run_fft(case, stt):
     name = case["name"]
     x = mk_input(case)
     kw = {k: (tuple(v) if isinstance(v, list) else v) for k, v in case["kw"].items()}
+    pos_args, pos_kw = positional(name, kw, case.get("npos", 0))
     try:
         ref_s = getattr(scipy.fft, name)(x, **kw)
     except Exception as e:
@@ -118,7 +130,7 @@ def run_fft(case, stt):
         raise Violation(f"pb.fft.{name} accepts arguments scipy.fft.{name} refuses ({type(e).__name__})")
     with lib("pb.fft." + name):
         f = getattr(pb.fft, name)
-        y = f(x, **kw)
+        y = f(x, *pos_args, **pos_kw)
     check(isinstance(y, np.ndarray), "pb.fft.{} on a NumPy array returns {}", name, type(y).__name__)
     check(y.shape == ref_s.shape and y.dtype == ref_s.dtype, "pb.fft.{}: shape/dtype {} {} but the reference gives {} {}", name, y.shape, y.dtype,
           ref_s.shape, ref_s.dtype)
@@ -144,7 +156,7 @@ def run_fft(case, stt):
 
     dx = da.from_delayed(dask.delayed(produce, pure=False)(), shape=x.shape, dtype=x.dtype).rechunk(tuple(case["chunks"]))
     with lib("pb.fft.%s on a Dask array" % name):
-        yd = f(dx, **kw)
+        yd = f(dx, *pos_args, **pos_kw)
     check(isinstance(yd, da.Array), "pb.fft.{} on a Dask array returns {}", name, type(yd).__name__)
     check(calls["n"] == 0, "pb.fft.{} computed its Dask input while building the result", name)
     check(yd.shape == y.shape, "Dask result shape {} != NumPy result shape {}", yd.shape, y.shape)
@@ -164,6 +176,7 @@ def run_fft(case, stt):
     nt = any(a % rank != rank - 1 for a in case["axes"]) or "n" in kw or "s" in kw or kw.get("norm") not in (None, "backward")
     stt.nt(nt)
     stt.label("name_" + name)
+    stt.label("positional_args_%d" % len(pos_args))
     stt.label("dtype_" + case["dtype"])
     stt.label("rank_%d" % rank)
     stt.label("long_axis" if max(case["shape"]) > 100 else "short_axes")
